@@ -257,3 +257,25 @@ def run(ctx) -> None:
         "tuples handed to the emitter are built only from (IN_MOVED_FROM, IN_MOVED_TO) record pairs (C08 checks this)",
         "IN_IGNORED cannot be masked (inotify(7))",
     ]
+
+
+IN = "observers/inotify.py"
+VARIANTS = [
+    dict(name="B created entry without IN_MOVE", expect="fire", rule="C11/mask-covers-need", edits=[(IN, "                event_mask |= InotifyConstants.IN_MOVE | InotifyConstants.IN_CREATE\n            elif cls is DirModifiedEvent:", "                event_mask |= InotifyConstants.IN_CREATE\n            elif cls is DirModifiedEvent:")]),
+    dict(name="B dir-modified entry without IN_CLOSE_WRITE", expect="fire", rule="C11/mask-covers-need", edits=[(IN, "                    | InotifyConstants.IN_DELETE\n                    | InotifyConstants.IN_CLOSE_WRITE\n", "                    | InotifyConstants.IN_DELETE\n")]),
+    dict(name="B deleted entry without moves (pre-fix)", expect="fire", rule="C11/mask-covers-need", edits=[(IN, "event_mask |= InotifyConstants.IN_DELETE | InotifyConstants.IN_MOVE", "event_mask |= InotifyConstants.IN_DELETE")]),
+    dict(name="B deleted entry with only the MOVED_FROM half", expect="fire", rule="C11/mask-covers-need", edits=[(IN, "event_mask |= InotifyConstants.IN_DELETE | InotifyConstants.IN_MOVE", "event_mask |= InotifyConstants.IN_DELETE | InotifyConstants.IN_MOVED_FROM")]),
+    dict(name="B no bookkeeping flags for recursive watches (pre-fix)", expect="fire", rule="C11/mask-covers-bookkeeping", edits=[(IN, "        if self.watch.is_recursive:\n            # Whatever the filter, following sub-directories needs their creations and moves.\n            event_mask |= InotifyConstants.IN_MOVE | InotifyConstants.IN_CREATE\n", "")]),
+    dict(name="B base classes select nothing (pre-fix)", expect="fire", rule="C11/mask-covers-need", edits=[(IN, "for cls in {c for c in concrete_classes for f in self._event_filter if issubclass(c, f)}:", "for cls in self._event_filter:")]),
+    dict(name="B delete-self dropped", expect="fire", rule="C11/mask-covers-bookkeeping", edits=[(IN, "        event_mask = InotifyConstants.IN_DELETE_SELF\n", "        event_mask = 0\n")]),
+    dict(name="B queue-time filter removed", expect="fire", rule="C11/filter-at-queue-time", edits=[("observers/api.py", "        if self._event_filter is None or any(isinstance(event, cls) for cls in self._event_filter):\n            self._event_queue.put((event, self.watch))", "        self._event_queue.put((event, self.watch))")]),
+    dict(name="B filtered watch falls back to a mask for None", expect="fire", rule="C11/unfiltered-mask", edits=[(IN, "        if self._event_filter is None:\n            return None\n", "        if self._event_filter is None:\n            return InotifyConstants.IN_DELETE_SELF\n")]),
+    dict(name="E reorder the elif arms", expect="silent", edits=[(IN, "            elif cls is FileClosedEvent:\n                event_mask |= InotifyConstants.IN_CLOSE_WRITE\n            elif cls is FileClosedNoWriteEvent:\n                event_mask |= InotifyConstants.IN_CLOSE_NOWRITE", "            elif cls is FileClosedNoWriteEvent:\n                event_mask |= InotifyConstants.IN_CLOSE_NOWRITE\n            elif cls is FileClosedEvent:\n                event_mask |= InotifyConstants.IN_CLOSE_WRITE")]),
+    dict(name="E masks named in locals", expect="silent", edits=[(IN, "            elif cls is FileModifiedEvent:\n                event_mask |= InotifyConstants.IN_ATTRIB | InotifyConstants.IN_MODIFY", "            elif cls is FileModifiedEvent:\n                content = InotifyConstants.IN_ATTRIB | InotifyConstants.IN_MODIFY\n                event_mask |= content")]),
+]
+
+
+def thorough(ctx):
+    from ..selftest import thorough as st
+
+    return st(ctx, VARIANTS)
